@@ -393,7 +393,7 @@ fn for_each_stream(items: &[(&'static str, Vec<u8>)], max_items: usize, f: &mut 
     rec(items, max_items, &mut vec![], f);
 }
 
-fn server_stream_job(
+pub fn server_stream_job(
     prop: &str,
     cfg: &ServerCfg,
     label: &str,
@@ -439,6 +439,43 @@ fn server_stream_job(
     if st.traces % 7 == 0 {
         st.sample(json!({"role": "server", "rtu": cfg.rtu, "stream_items": label, "bytes": stream.len(), "chunkings": n}));
     }
+}
+
+/// C02: requests pipelined in one delivery - a small request, then a maximum-size write (and the
+/// other way round, and three in a row): what the write handler receives must be what was sent
+pub fn pipelined_write_streams(rtu: bool) -> Vec<(String, Vec<u8>)> {
+    let coil_bytes: Vec<u8> = (0..246).map(|i| (i as u8).wrapping_mul(7).wrapping_add(1)).collect();
+    let reg_bytes: Vec<u8> = (0..246).map(|i| (i as u8).wrapping_mul(5).wrapping_add(3)).collect();
+    let small: Vec<(&str, Vec<u8>)> = vec![("read", read_pdu(3, 0, 3)), ("write-reg", vec![6, 0, 9, 0xAB, 0xCD]), ("write-3-regs", write_multi_pdu(16, 4, 3, 6, &[0xA1, 0xA2, 0xA3, 0xA4, 0xA5, 0xA6]))];
+    let big: Vec<(&str, Vec<u8>)> = vec![
+        ("write-1968-coils", write_multi_pdu(15, 0, 1968, 246, &coil_bytes)),
+        ("write-123-regs", write_multi_pdu(16, 0, 123, 246, &reg_bytes)),
+        ("write-1000-coils", write_multi_pdu(15, 7, 1000, 125, &coil_bytes[..125])),
+        ("write-60-regs", write_multi_pdu(16, 2, 60, 120, &reg_bytes[..120])),
+    ];
+    let mut tx = 0x2000u16;
+    let mut fr = |p: &Vec<u8>| {
+        tx += 1;
+        if rtu {
+            rtu_frame(1, p)
+        } else {
+            mbap_frame(tx, 1, p)
+        }
+    };
+    let mut out = vec![];
+    for (sn, sp) in &small {
+        for (bn, bp) in &big {
+            out.push((format!("{sn}+{bn}"), [fr(sp), fr(bp)].concat()));
+            out.push((format!("{bn}+{sn}"), [fr(bp), fr(sp)].concat()));
+            out.push((format!("{sn}+{bn}+{sn}"), [fr(sp), fr(bp), fr(sp)].concat()));
+        }
+    }
+    for (bn, bp) in &big {
+        for (cn, cp) in &big {
+            out.push((format!("{bn}+{cn}"), [fr(bp), fr(cp)].concat()));
+        }
+    }
+    out
 }
 
 /// every single cut of the stream with a (no-op) server command processed by the session between
